@@ -398,6 +398,25 @@ class Oracle:
     def n_calls(self, c):
         return sum(1 for p in self.calls if p[0] == c)
 
+    def over_limit(self):
+        """clause 1 of the property, on the counts the trace has established so far"""
+        bad = []
+        if len(self.registered) > self.lim[0]:
+            bad.append("%d registered connections (max_completed_connections=%d)" % (len(self.registered), self.lim[0]))
+        for u in set(self.open[c] for c in self.registered):
+            if self.n_user(u) > self.lim[1]:
+                bad.append("%d registered connections of user %d (max_connections_per_user=%d)" % (self.n_user(u), u, self.lim[1]))
+        if self.n_unauthenticated() > self.lim[2]:
+            bad.append("%d unauthenticated connections (max_incomplete_connections=%d)" % (self.n_unauthenticated(), self.lim[2]))
+        for c in self.registered:
+            if self.held(c) > self.lim[3]:
+                bad.append("connection %d holds %d names, owned or queued, unique name included (max_names_per_connection=%d)" % (c, self.held(c), self.lim[3]))
+            if len(self.rules.get(c, [])) > self.lim[4]:
+                bad.append("connection %d has %d match rules (max_match_rules_per_connection=%d)" % (c, len(self.rules[c]), self.lim[4]))
+            if self.n_calls(c) > self.lim[5]:
+                bad.append("%d calls of connection %d await a reply (max_replies_per_connection=%d)" % (self.n_calls(c), c, self.lim[5]))
+        return bad
+
     def gone(self, c):
         self.open.pop(c, None)
         self.authed.discard(c)
@@ -521,8 +540,12 @@ class Oracle:
             closed_others = [x for x in closed if x != c]
             if closed_others:
                 bad.append("connections %s were disconnected because of a message of connection %d" % (closed_others, c))
-        if refused and kind in "HRAK":
-            pass
+        # NameAcquired for a name the trace has not shown the connection to hold: it holds it now
+        for x, ts in per.items():
+            for tk in ts:
+                if tk.startswith("acq:S") and x in self.registered and tk[5:] not in self.names.get(x, {}):
+                    self.names.setdefault(x, {})[tk[5:]] = False
+        bad += self.over_limit()
         for x in closed:
             if kind in "KEY" and x == c and c not in self.registered:
                 pass                  # an unregistered sender talking to a peer is thrown out: not this property's business
@@ -637,8 +660,13 @@ def run(ctx):
                               replay_of(case, i, ires, mres))
                 continue
             what = "event %d `%s` of history [%s] (limits %s): implementation %s | model %s" % (i, ev[i], " ".join(ev[:i + 1])[-400:], limits, ires[i], mres[i])
-            if complaints is not None and complaints[0] <= i:
-                rep.violation(what + " -- " + "; ".join(complaints[1]), replay_of(case, complaints[0], ires, mres))
+            if complaints is not None:
+                # the oracle reads the daemon's trace only: an objection anywhere in it (at, before or after the first
+                # step where the model disagrees) is a property violation with this history as the failing input
+                j = complaints[0]
+                rep.violation("event %d `%s` of history [%s] (limits %s): implementation %s -- %s (first disagreement with the model at event %d `%s`: implementation %s | model %s)" % (
+                    j, ev[j], " ".join(ev[:j + 1])[-400:], limits, ires[j], "; ".join(complaints[1]), i, ev[i], ires[i], mres[i]),
+                    replay_of(case, j, ires, mres))
             else:
                 rep.violation(what + " -- the counting oracle has no objection to the implementation's behaviour; the model is off",
                               dict(replay_of(case, i, ires, mres), names="correspondence Limits.lstep vs dbus-daemon"), found_input=False)
@@ -680,6 +708,7 @@ def run(ctx):
                 stats["probes"] += 1
         if interesting:
             nontrivial.add((limits, tuple(ev)))
+    rep.violations.sort(key=lambda v: not v[2])      # failing inputs first (only the first ten are printed)
     dist = {}
     for i in range(len(cases)):
         dist[origin[i]] = dist.get(origin[i], 0) + 1
